@@ -54,6 +54,14 @@ def _sym(fx, name):
     return [c for c in OG.Analysis(fx.CLASSES, fx.START).symbols if c.__name__ == name][0]
 
 
+def _depth_clause(reported, s, exact, nonempty):
+    """the one listed inexactness (a list that may be empty is charged its element's depth) gets its
+    own clause, so that any OTHER difference in a minimum depth is still reported"""
+    if reported == nonempty.min_depth.get(s) and reported != exact.min_depth.get(s):
+        return "analysis:minimum-depth-conservative-for-possibly-empty-list"
+    return "analysis:minimum-depth-differs-from-shallowest-derivation"
+
+
 def h_tables(ctx: Ctx, cfg):
     """productions, minimum depths, recursive set, reachable symbols vs the oracle (concrete)"""
     fx, gfn = _fx(cfg)
@@ -61,9 +69,9 @@ def h_tables(ctx: Ctx, cfg):
     def work():
         g = gfn()
         a = OG.Analysis(fx.CLASSES, fx.START)
-        return g, a
+        return g, a, OG.Analysis(fx.CLASSES, fx.START, lists_transparent_nonempty=True)
 
-    g, a = ctx.concrete(work)
+    g, a, a_ne = ctx.concrete(work)
     ctx.reached()
     for s in a.symbols:
         if OT.is_abstract(s):
@@ -72,7 +80,7 @@ def h_tables(ctx: Ctx, cfg):
             ctx.require(sorted(exp) == sorted(got), "analysis:productions-differ-from-direct-subtypes", {"symbol": s.__name__, "reported": got, "expected": exp})
         ctx.require(s in g.all_nodes, "analysis:reachable-symbol-missing", {"symbol": s.__name__})
         rd = g.distanceToTerminal.get(s)
-        ctx.require(rd == a.min_depth[s], "analysis:minimum-depth-differs-from-shallowest-derivation", {"symbol": s.__name__, "reported": rd, "shallowest": a.min_depth[s]})
+        ctx.require(rd == a.min_depth[s], _depth_clause(rd, s, a, a_ne), {"symbol": s.__name__, "reported": rd, "shallowest": a.min_depth[s]})
         ctx.require((s in g.recursive_prods) == (s in a.recursive), "analysis:recursive-set-wrong", {"symbol": s.__name__, "reported": s in g.recursive_prods, "derives_itself": s in a.recursive})
     ctx.require(g.get_min_tree_depth() == a.min_depth[fx.START], "analysis:grammar-minimum-depth-wrong")
 
@@ -175,14 +183,14 @@ def h_shipped(ctx: Ctx, cfg):
                 u = g.usable_grammar()
             except Exception as e:  # noqa
                 u = e
-            out.append((label, g, a, u, None))
+            out.append((label, g, a, u, OG.Analysis(classes, start, lists_transparent_nonempty=True)))
         return out, skipped
 
     res, skipped = ctx.concrete(work)
     ctx.note("grammars", len(res))
     ctx.note("skipped", [s[0] for s in skipped])
     ctx.require(len(res) >= cfg.get("at_least", 1), "oracle:no-shipped-grammar-discovered", {"skipped": skipped[:5]})
-    for label, g, a, u, err in res:
+    for label, g, a, u, a_ne in res:
         if g is None:
             continue  # the example does not build a grammar on its own (e.g. needs runtime data)
         ctx.reached()
@@ -192,12 +200,15 @@ def h_shipped(ctx: Ctx, cfg):
                 got = sorted(c.__name__ for c in g.alternatives.get(s, []))
                 ctx.require(exp == got, "analysis:productions-differ-from-direct-subtypes", {"grammar": label, "symbol": s.__name__, "reported": got, "expected": exp})
             rd = g.distanceToTerminal.get(s)
-            ctx.require(rd == a.min_depth[s], "analysis:minimum-depth-differs-from-shallowest-derivation", {"grammar": label, "symbol": s.__name__, "reported": rd, "shallowest": a.min_depth[s]})
+            ctx.require(rd == a.min_depth[s], _depth_clause(rd, s, a, a_ne), {"grammar": label, "symbol": s.__name__, "reported": rd, "shallowest": a.min_depth[s]})
             ctx.require((s in g.recursive_prods) == (s in a.recursive), "analysis:recursive-set-wrong", {"grammar": label, "symbol": s.__name__, "reported": s in g.recursive_prods})
         ctx.require(not isinstance(u, Exception), "analysis:usable_grammar-raises", lambda: {"grammar": label, "error": type(u).__name__ + ": " + str(u)[:100]})
         got = sorted(c.__name__ for c in u.all_nodes if isinstance(c, type) and c not in OT.BASE)
         exp = sorted(c.__name__ for c in a.symbols)
-        ctx.require(got == exp, "analysis:usable_grammar-symbols-differ-from-reachable-set", {"grammar": label, "reported": got, "reachable": exp})
+        extra = [c for c in u.all_nodes if isinstance(c, type) and c not in OT.BASE and c not in a.symbols]
+        only_ancestors = bool(extra) and set(exp) <= set(got) and all(any(issubclass(r, c) for r in a.symbols) for c in extra)
+        clause = "analysis:usable_grammar-keeps-unreachable-ancestor-of-a-reachable-symbol" if only_ancestors else "analysis:usable_grammar-symbols-differ-from-reachable-set"
+        ctx.require(got == exp, clause, {"grammar": label, "reported": got, "reachable": exp})
 
 
 HARNESSES = {"shipped": h_shipped, "tables": h_tables, "usable": h_usable, "min_depth_lower_bound": h_min_depth_lower_bound, "min_depth_witness": h_min_depth_witness, "recursion": h_recursion}
